@@ -211,8 +211,9 @@ def mp4a(aot=2, freq_index=3, chan=2, bitrate=128000, samplerate=48000, pad=0, e
 
 
 def tx3g():
-    return Box("tx3g", [Raw(b"\0" * 6), F(2, 1), F(4, 0), F(1, 1), F(1, 0xff), Raw(b"\0\0\0\xff"), Raw(b"\0" * 8), F(2, 0), F(1, 0), F(1, 0), F(1, 12),
-                        Raw(b"\xff\xff\xff\xff")])
+    # 6 reserved, data_reference_index, display_flags, h/v justification, bg rgba, box record (4 x i16), style record (12 bytes)
+    return Box("tx3g", [Raw(b"\0" * 6), F(2, 1), F(4, 0), F(1, 1), F(1, 0xff, signed=True), Raw(b"\0\0\0\xff"), F(2, 0), F(2, 0), F(2, 0), F(2, 0),
+                        Raw(b"\0\0\0\0\0\1\0\x12\xff\xff\xff\xff")])
 
 
 def stsd(entry):
@@ -403,3 +404,118 @@ def lookup_line(tb, ids, mode, data_hex="-"):
     if tb.get("stss") is not None:
         toks.append("stss=" + (",".join(hx(i) for i in tb["stss"]) or "-"))
     return " ".join(toks)
+
+
+# ---------------------------------------------------------------- fragments, edit lists, events, metadata
+def mfhd(seq=1):
+    return full("mfhd", 0, 0, [F(4, seq, "sequence")])
+
+
+def mehd(duration, version=0):
+    return full("mehd", version, 0, [F(8 if version == 1 else 4, duration, "duration")])
+
+
+def trex(track_id=1, desc=1, dur=0, size=0, flags=0):
+    return full("trex", 0, 0, [F(4, track_id, "track_id"), F(4, desc), F(4, dur, "default_duration"), F(4, size, "default_size"), F(4, flags)])
+
+
+def mvex(trexes, mehd_box=None):
+    return Box("mvex", ([mehd_box] if mehd_box else []) + list(trexes))
+
+
+TFHD_BASE, TFHD_DESC, TFHD_DUR, TFHD_SIZE, TFHD_FLAGS, TFHD_EMPTY, TFHD_MOOF = 0x1, 0x2, 0x8, 0x10, 0x20, 0x10000, 0x20000
+
+
+def tfhd(track_id, base_data_offset=None, desc=None, default_duration=None, default_size=None, default_flags=None, extra_flags=0):
+    flags = extra_flags
+    items = [F(4, track_id, "track_id")]
+    if base_data_offset is not None:
+        flags |= TFHD_BASE
+        items.append(F(8, base_data_offset, "base_data_offset"))
+    if desc is not None:
+        flags |= TFHD_DESC
+        items.append(F(4, desc))
+    if default_duration is not None:
+        flags |= TFHD_DUR
+        items.append(F(4, default_duration, "default_duration"))
+    if default_size is not None:
+        flags |= TFHD_SIZE
+        items.append(F(4, default_size, "default_size"))
+    if default_flags is not None:
+        flags |= TFHD_FLAGS
+        items.append(F(4, default_flags))
+    return full("tfhd", 0, flags, items)
+
+
+def tfdt(time, version=0):
+    return full("tfdt", version, 0, [F(8 if version == 1 else 4, time, "decode_time")])
+
+
+TRUN_OFFSET, TRUN_FIRST, TRUN_DUR, TRUN_SIZE, TRUN_FLAGS, TRUN_CTS = 0x1, 0x4, 0x100, 0x200, 0x400, 0x800
+
+
+def trun(count, data_offset=None, first_flags=None, durations=None, sizes=None, sflags=None, cts=None, version=0):
+    flags = 0
+    items = [F(4, count, "count")]
+    if data_offset is not None:
+        flags |= TRUN_OFFSET
+        items.append(F(4, data_offset, "data_offset", signed=True))
+    if first_flags is not None:
+        flags |= TRUN_FIRST
+        items.append(F(4, first_flags))
+    for (lst, bit) in ((durations, TRUN_DUR), (sizes, TRUN_SIZE), (sflags, TRUN_FLAGS), (cts, TRUN_CTS)):
+        if lst is not None:
+            flags |= bit
+    n = max([len(x) for x in (durations, sizes, sflags, cts) if x is not None] + [0])
+    for i in range(n):
+        if durations is not None:
+            items.append(F(4, durations[i], "sample_duration"))
+        if sizes is not None:
+            items.append(F(4, sizes[i], "size_entry"))
+        if sflags is not None:
+            items.append(F(4, sflags[i]))
+        if cts is not None:
+            items.append(F(4, cts[i], "offset", signed=True))
+    return full("trun", version, flags, items)
+
+
+def elst(entries, version=0):
+    w = 8 if version == 1 else 4
+    return full("elst", version, 0, [F(4, len(entries), "count")] + [x for (d, t, r, f) in entries for x in (F(w, d, "duration"), F(w, t), F(2, r), F(2, f))])
+
+
+def edts(entries=None, version=0):
+    return Box("edts", [elst(entries, version)] if entries is not None else [])
+
+
+def emsg(version=0, timescale=1000, ptime=5, duration=6, ident=7, scheme=b"urn:x", value=b"v", data=b"\x01\x02"):
+    if version == 0:
+        items = [Raw(scheme + b"\0"), Raw(value + b"\0"), F(4, timescale, "timescale"), F(4, ptime), F(4, duration, "duration"), F(4, ident)]
+    else:
+        items = [F(4, timescale, "timescale"), F(8, ptime), F(4, duration, "duration"), F(4, ident), Raw(scheme + b"\0"), Raw(value + b"\0")]
+    return full("emsg", version, 0, items + [Raw(data)])
+
+
+def data_box(dtype, payload):
+    return Box("data", [F(4, dtype, "data_type"), F(4, 0), Raw(payload)])
+
+
+def ilst_item(code, dtype, payload, extra=()):
+    return Box(code, list(extra) + [data_box(dtype, payload)])
+
+
+TITLE, YEAR, POSTER, SUMMARY = b"\xa9nam", b"\xa9day", b"covr", b"desc"
+
+
+def ilst(items):
+    return Box("ilst", list(items))
+
+
+def meta(children, fullbox=True, handler="mdir", hdlr_first=True, with_hdlr=True):
+    h = hdlr(handler, b"\0") if with_hdlr else None
+    kids = ([h] if h and hdlr_first else []) + list(children) + ([h] if h and not hdlr_first else [])
+    return Box("meta", ([F(1, 0, "version"), F(3, 0, "flags")] if fullbox else []) + kids)
+
+
+def udta(children):
+    return Box("udta", list(children))
